@@ -10,7 +10,7 @@ use serde_json::Value;
 use std::collections::BTreeMap;
 use std::path::{Path, PathBuf};
 
-pub const RULE: &str = "grammar-generated pytest modules (decorator spellings pytest.fixture / fixture / pytest_asyncio.fixture bare and called with name=/scope=/autouse=/extra keywords, assignment style, sync/async, yield placed in up to 3 nested blocks of 11 kinds and in 5 statement forms, nested-function yields, 14 return-annotation forms, 7 docstring layouts, class-nested and nested-class tests and fixtures, positional-only / keyword-only / defaulted / annotated parameters, usefixtures / parametrize-indirect / pytestmark marks, 8 kinds of noise) compared record by record with the CPython extraction; plus real-world pytest files found offline. Non-trivial = >=1 definition, >=1 usage and >=1 non-baseline feature (non-default decorator form, nested yield, annotation, docstring layout >0, mark, class); distinct = distinct module values.";
+pub const RULE: &str = "grammar-generated pytest modules (decorator spellings pytest.fixture / fixture / pytest_asyncio.fixture bare and called with name=/scope=/autouse=/extra keywords, assignment style, sync/async, yield placed in up to 3 nested blocks of 11 kinds and in 5 statement forms, nested-function yields, 14 return-annotation forms, 7 fixed docstring layouts plus docstrings generated line by line (text at 4 relative indentations, empty lines, whitespace-only lines shorter and longer than the margin, a lone tab; text on the opening line or not), class-nested and nested-class tests and fixtures, positional-only / keyword-only / defaulted / annotated parameters, usefixtures / parametrize-indirect / pytestmark marks, 8 kinds of noise) compared record by record with the CPython extraction; plus real-world pytest files found offline. Non-trivial = >=1 definition, >=1 usage and >=1 non-baseline feature (non-default decorator form, nested yield, annotation, docstring layout >0, mark, class); distinct = distinct module values.";
 pub const ASSUMPTIONS: &[&str] = &[
     "CPython 3.11 ast/tokenize as the parser of record; sources rejected by CPython are skipped, sources only rustpython rejects are counted (parser_disagreements) and not judged",
     "documented recognisers as listed in oracle/pyoracle.py; a parameter with a default value is not a fixture request (pytest getfuncargnames)",
@@ -47,8 +47,12 @@ fn note_known(c: &mut Cmp, k: &str, msg: String) {
     c.detail.get_or_insert(msg);
 }
 
+/// Trailing whitespace of every line and leading / trailing blank lines are presentation: PEP 257's
+/// trim() removes them, inspect.cleandoc keeps a whitespace-only first or last line. Not judged.
 fn trim_lines(s: &str) -> String {
-    s.lines().map(|l| l.trim_end()).collect::<Vec<_>>().join("\n").trim_end().to_string()
+    let v: Vec<&str> = s.lines().map(|l| l.trim_end()).collect();
+    let start = v.iter().position(|l| !l.is_empty()).unwrap_or(v.len());
+    v[start..].join("\n").trim_end().to_string()
 }
 
 /// Compare one source. `path` is only used as the index key.
